@@ -341,12 +341,16 @@ impl<T: TagT> Probe<T> {
                         ChildKey::Msg => ctx.register_child::<Msg>(addr),
                         ChildKey::Topic1 => ctx.register_child::<Topic1>(addr),
                     }
+                    log(Ev::ChildAdded { parent: self.aidx, parent_inst: self.inst, child: *spec, key: *under });
                 }
-                Work::Broadcast { key, id: bid } => match key {
-                    ChildKey::Unit => ctx.send_to_children(()),
-                    ChildKey::Msg => ctx.send_to_children(Msg { id: *bid, work: Arc::new(vec![]) }),
-                    ChildKey::Topic1 => ctx.send_to_children(Topic1 { id: *bid }),
-                },
+                Work::Broadcast { key, id: bid } => {
+                    log(Ev::Broadcast { parent: self.aidx, parent_inst: self.inst, key: *key, id: *bid });
+                    match key {
+                        ChildKey::Unit => ctx.send_to_children(()),
+                        ChildKey::Msg => ctx.send_to_children(Msg { id: *bid, work: Arc::new(vec![]) }),
+                        ChildKey::Topic1 => ctx.send_to_children(Topic1 { id: *bid }),
+                    }
+                }
                 Work::Subscribe(t) => {
                     let ok = match t {
                         1 => ctx.subscribe::<Topic1>().await.is_ok(),
